@@ -8,7 +8,7 @@ import streams as S
 ID = "C06"
 MODULE = "JmesVerif.Props.C06"
 THEOREMS = ["C06_signature_table", "C06_registration_table", "C06_validate_arity", "C06_validate_ok_iff", "C06_validate_type",
-            "C06_class_level", "C06_result_type", "C06_no_unreachable", "C06_expref_args_shape", "C06_type_vocabulary"]
+            "C06_class_level", "C06_result_type", "C06_no_unreachable", "C06_expref_args_shape", "C06_type_vocabulary", "C06_translated_validate_arity"]
 TRUSTED_BASE = [
     "Lean 4.33 kernel; axioms propext, Classical.choice, Quot.sound only",
     "tools/translate.py (regex extraction of every defn!(…) and register_function(…) line into Generated/Signatures.lean, re-run on every check)",
@@ -189,6 +189,24 @@ def run(ctx):
     if getattr(ctx, "replay", None) and cs:
         cases = cases_override
     cs = cs + [(n, c) for n, c, _ in vcs]
+    # the SAME operand in several positions (`f(@, @)`, `f(a0, a0, a0)`, `f(@, &k, @)`): the evaluated arguments are then one shared value,
+    # which a validator that remembers / compares what it has just checked would treat differently from equal but distinct values
+    if not getattr(ctx, "replay", None):
+        for name, (inputs, var, res) in sorted(SPEC.items()):
+            d = len(inputs)
+            for n in range(2, d + 3):
+                for c in CLASSES:
+                    if c == XR:
+                        continue
+                    for v in ([DOCVAL[c]] + (VALUES[c][:2] if ctx.tier == "thorough" else [])):
+                        cs.append((name, (c,) * n))
+                        cases.append((name + "(" + ", ".join(["@"] * n) + ")", v))
+                        cs.append((name, (c,) * n))
+                        cases.append((name + "(" + ", ".join(["a0"] * n) + ")", "{ " + G.enc_str("a0") + " " + v + " }"))
+                        if n >= 2:
+                            mixed = tuple(XR if k == 1 else c for k in range(n))
+                            cs.append((name, mixed))
+                            cases.append((name + "(" + ", ".join("&k" if k == 1 else "@" for k in range(n)) + ")", v))
     # unregistered names
     unk = [("nope(a0)", "{ }"), ("Abs(a0)", "{ }"), ("sortby(@, &a)", "[ ]"), ("to_array(nope2(@))", "u1")]
     ncases = [(e, d) for _, _, _, e, d in nested]
